@@ -79,7 +79,15 @@ def emit_cases(module, cfg):
 
 def replay_fit_to_data(rep: Report, cases: list, rng: random.Random, budget: int, traces: list):
     S = observe.DataSession()
-    picked = cases if len(cases) <= budget else rng.sample(cases, budget)
+    if len(cases) <= budget:
+        picked = cases
+    else:       # every (max_epochs, patience, return_best) stratum first, the rest at random
+        strata = {}
+        for c in cases:
+            strata.setdefault((c["cfg"]["maxEpochs"], c["cfg"]["patience"], c["cfg"]["returnBest"]), []).append(c)
+        picked = [rng.choice(v) for _k, v in sorted(strata.items(), key=lambda kv: str(kv[0]))][:budget]
+        rest = [c for c in cases if c not in picked]
+        picked += rng.sample(rest, max(0, min(len(rest), budget - len(picked))))
     for i, c in enumerate(picked):
         cfg = c["cfg"]
         n, batch, vp = ALT[0] if i % 3 else ALT[rng.randrange(len(ALT))]
